@@ -24,6 +24,9 @@ use serde_json::json;
 struct ValU(u32);
 impl CustomState<'_> for ValU {}
 #[derive(Tid, Deref, DerefMut)]
+struct ValW(u32);
+impl CustomState<'_> for ValW {}
+#[derive(Tid, Deref, DerefMut)]
 struct ValF(f64);
 impl CustomState<'_> for ValF {}
 #[derive(Tid, Deref, DerefMut)]
@@ -36,6 +39,20 @@ fn problem() -> Real {
 }
 fn so(v: f64) -> SingleObjective {
     v.try_into().unwrap()
+}
+
+/// Runs `f` on `st` itself (depth 0) or inside `depth` nested child scopes of it: whatever a condition
+/// observes in an enclosing scope it must see through any number of scopes opened in between.
+fn at_depth<R>(st: &mut State<P>, depth: usize, f: &mut dyn FnMut(&mut State<P>) -> R) -> R {
+    if depth == 0 {
+        return f(st);
+    }
+    let mut out = None;
+    let _ = st.with_inner_state(|inner| {
+        out = Some(at_depth(inner, depth - 1, f));
+        Ok(())
+    });
+    out.expect("closure ran")
 }
 
 // ---- less-than-n / every-n --------------------------------------------------------------------
@@ -59,9 +76,11 @@ fn less_than_n(rep: &Reporter) {
             st.insert(Iterations(v));
             st.insert(Evaluations(v));
             for (which, c) in [("custom-lens", &cond), ("iterations", &cond_it), ("evaluations", &cond_ev)] {
+                // initialised in the caller's scope, evaluated there or one / two scopes further in (v picks which)
+                let depth = (v % 3) as usize;
                 let r = catch(|| {
                     c.init(&p, &mut st)?;
-                    c.evaluate(&p, &mut st)
+                    at_depth(&mut st, depth, &mut |s| c.evaluate(&p, s))
                 });
                 let progress = match which {
                     "custom-lens" => st.try_get_value::<Progress<ValueOf<ValU>>>().ok(),
@@ -105,7 +124,8 @@ fn less_than_n(rep: &Reporter) {
             st.insert(ValU(v));
             st.insert(Iterations(v));
             for (which, c) in [("custom-lens", &c), ("iterations", &ci)] {
-                let r = catch(|| c.evaluate(&p, &mut st));
+                let depth = (v % 3) as usize;
+                let r = catch(|| at_depth(&mut st, depth, &mut |s| c.evaluate(&p, s)));
                 if !matches!(r, Ok(Ok(b)) if b == (v % n == 0)) {
                     rep.violation(&format!("every-n:{which}:wrong-result:{}", if v % n == 0 { "multiple" } else { "non-multiple" }), json!({"n": n, "value": v, "result": format!("{r:?}")}));
                 }
@@ -253,9 +273,13 @@ fn optimum(rep: &Reporter) {
                 best.update(&Individual::new(vec![0.0, 0.0], so(b)));
                 st.insert(best);
                 let want = b <= opt + eps;
-                let r = catch(|| c.evaluate(&p, &mut st));
-                if !matches!(r, Ok(Ok(x)) if x == want) {
-                    rep.violation(&format!("optimum-reached:wrong-result:{}", if want { "within-epsilon" } else { "outside-epsilon" }), json!({"optimum": opt, "epsilon": eps, "best": b, "result": format!("{r:?}"), "expected": want}));
+                // the best individual lives in the caller's scope; the condition is asked there and from inside 1-2 scopes
+                for depth in 0..3usize {
+                    let r = catch(|| at_depth(&mut st, depth, &mut |s| c.evaluate(&p, s)));
+                    if !matches!(r, Ok(Ok(x)) if x == want) {
+                        let place = if depth == 0 { "" } else { ":inside-a-scope" };
+                        rep.violation(&format!("optimum-reached:wrong-result:{}{place}", if want { "within-epsilon" } else { "outside-epsilon" }), json!({"optimum": opt, "epsilon": eps, "best": b, "scopes_between": depth, "result": format!("{r:?}"), "expected": want}));
+                    }
                 }
             }
         }
@@ -269,19 +293,25 @@ fn optimum(rep: &Reporter) {
 }
 
 // ---- change-of --------------------------------------------------------------------------------------
+/// One step of a change-of history: the observed value becomes `Some(v)` and the condition is asked,
+/// or (`None`) the condition is initialised again (a loop does that on every entry): after that it
+/// has not reported anything yet.
+type Step = Option<u32>;
+
 fn change_of(rep: &Reporter) {
     let p = problem();
-    let alphabet = [0u32, 1, 2, 5];
+    let alphabet: [Step; 5] = [Some(0), Some(1), Some(2), Some(5), None];
     let max_len = rep.tier.pick(6usize, 7usize);
     let mut histories = 0u64;
     for len in 1..=max_len {
         for code in 0..alphabet.len().pow(len as u32) {
             let mut c = code;
-            let hist: Vec<u32> = (0..len).map(|_| { let v = alphabet[c % 4]; c /= 4; v }).collect();
+            let hist: Vec<Step> = (0..len).map(|_| { let v = alphabet[c % 5]; c /= 5; v }).collect();
             if len < max_len && code % 3 != 0 {
                 continue; // prefixes of longer histories are covered by them
             }
             histories += 1;
+            let depth = code % 3; // the observed values live in the caller's scope, the condition 0-2 scopes further in
             for thr in 0..=5u32 {
                 // thr == 0 -> PartialEq checker
                 rep.case();
@@ -295,35 +325,61 @@ fn change_of(rep: &Reporter) {
                     let mut st: State<P> = State::new();
                     st.insert(ValU(0));
                     st.insert(ValO(so(0.0)));
-                    if let Err(e) = cond.init(&p, &mut st) {
-                        rep.violation("change-of:init-failed", json!({"error": e.to_string()}));
-                        continue;
-                    }
-                    let mut last: Option<u32> = None;
-                    for (k, &v) in hist.iter().enumerate() {
-                        st.set_value::<ValU>(v);
-                        st.set_value::<ValO>(so(v as f64));
-                        let want = match last {
-                            None => true,
-                            Some(l) => {
-                                let d = if v > l { v - l } else { l - v };
-                                if thr == 0 {
-                                    v != l
-                                } else {
-                                    d >= thr
+                    let verdict = at_depth(&mut st, depth, &mut |st| -> Option<(String, serde_json::Value)> {
+                        if let Err(e) = cond.init(&p, st) {
+                            return Some(("change-of:init-failed".into(), json!({"error": e.to_string()})));
+                        }
+                        let mut last: Option<u32> = None;
+                        for (k, step) in hist.iter().enumerate() {
+                            let v = match *step {
+                                None => {
+                                    if let Err(e) = cond.init(&p, st) {
+                                        return Some(("change-of:init-failed".into(), json!({"error": e.to_string()})));
+                                    }
+                                    last = None;
+                                    continue;
                                 }
+                                Some(v) => v,
+                            };
+                            st.set_value::<ValU>(v);
+                            st.set_value::<ValO>(so(v as f64));
+                            let want = match last {
+                                None => true,
+                                Some(l) => {
+                                    let d = if v > l { v - l } else { l - v };
+                                    if thr == 0 {
+                                        v != l
+                                    } else {
+                                        d >= thr
+                                    }
+                                }
+                            };
+                            let r = catch(|| cond.evaluate(&p, st));
+                            if !matches!(r, Ok(Ok(b)) if b == want) {
+                                let checker = if thr == 0 { "partial-eq".to_string() } else { "delta".to_string() };
+                                let reinit = hist[..k].contains(&None);
+                                let kind = if want && reinit && last.is_none() {
+                                    "no-report-after-being-initialised-again"
+                                } else if want {
+                                    "missed-change"
+                                } else if last == Some(v) {
+                                    "fires-without-change"
+                                } else {
+                                    "fires-below-threshold-or-vs-last-seen"
+                                };
+                                return Some((
+                                    format!("change-of:{checker}:{target}:{kind}"),
+                                    json!({"checker": if thr == 0 { "PartialEqChecker".to_string() } else { format!("DeltaEqChecker({thr})") }, "target": target, "history (null = init again)": hist, "scopes_between_value_and_condition": depth, "step": k, "value": v, "last_reported": last, "result": format!("{r:?}"), "expected": want}),
+                                ));
                             }
-                        };
-                        let r = catch(|| cond.evaluate(&p, &mut st));
-                        if !matches!(r, Ok(Ok(b)) if b == want) {
-                            let checker = if thr == 0 { "partial-eq".to_string() } else { "delta".to_string() };
-                            let kind = if want { "missed-change" } else if last == Some(v) { "fires-without-change" } else { "fires-below-threshold-or-vs-last-seen" };
-                            rep.violation(&format!("change-of:{checker}:{target}:{kind}"), json!({"checker": if thr == 0 { "PartialEqChecker".to_string() } else { format!("DeltaEqChecker({thr})") }, "target": target, "history": hist, "step": k, "value": v, "last_reported": last, "result": format!("{r:?}"), "expected": want}));
-                            break;
+                            if want {
+                                last = Some(v);
+                            }
                         }
-                        if want {
-                            last = Some(v);
-                        }
+                        None
+                    });
+                    if let Some((sig, detail)) = verdict {
+                        rep.violation(&sig, detail);
                     }
                 }
             }
@@ -333,6 +389,58 @@ fn change_of(rep: &Reporter) {
         }
     }
     rep.count("change_of_histories", histories);
+}
+
+/// Two change-of conditions living in the same state, watching *different* values: each one answers
+/// relative to what *it* reported last, whatever the other one has seen. `same_target` chooses whether the
+/// two observed values have the same Rust type (u32 / u32) or different ones (u32 / objective).
+fn change_of_pairs(rep: &Reporter) {
+    let p = problem();
+    let mut rng = SplitMix64::new(rep.seed).fork(0xC10_5);
+    let mut n = 0u64;
+    for k in 0..rep.tier.pick(4_000u32, 400_000u32) {
+        let same_target = k % 2 == 0;
+        let a: Box<dyn Condition<P>> = ChangeOf::new(PartialEqChecker::new(), ValueOf::<ValU>::new());
+        let b: Box<dyn Condition<P>> = if same_target { ChangeOf::new(PartialEqChecker::new(), ValueOf::<ValW>::new()) } else { ChangeOf::new(PartialEqChecker::new(), ValueOf::<ValO>::new()) };
+        let mut st: State<P> = State::new();
+        st.insert(ValU(0));
+        st.insert(ValW(0));
+        st.insert(ValO(so(0.0)));
+        if a.init(&p, &mut st).is_err() || b.init(&p, &mut st).is_err() {
+            rep.violation("change-of:init-failed", json!({"pair": true}));
+            continue;
+        }
+        rep.case();
+        n += 1;
+        rep.nontrivial(hash_of(&("changeof-pair", k)));
+        let mut last: [Option<u32>; 2] = [None, None];
+        let mut trace = Vec::new();
+        for step in 0..(2 + rng.usize(10)) {
+            let who = rng.usize(2);
+            let v = rng.below(3) as u32;
+            trace.push((who, v));
+            if who == 0 {
+                st.set_value::<ValU>(v);
+            } else {
+                st.set_value::<ValW>(v);
+                st.set_value::<ValO>(so(v as f64));
+            }
+            let want = last[who] != Some(v);
+            let r = catch(|| if who == 0 { a.evaluate(&p, &mut st) } else { b.evaluate(&p, &mut st) });
+            if !matches!(r, Ok(Ok(x)) if x == want) {
+                let kind = if same_target { "values-of-the-same-type" } else { "values-of-different-types" };
+                rep.violation(
+                    &format!("change-of:two-conditions-on-different-values:{kind}:answer-depends-on-the-other-condition"),
+                    json!({"steps (condition, value)": trace, "step": step, "asked": who, "value": v, "last_reported_by_that_condition": last[who], "last_reported_by_the_other": last[1 - who], "result": format!("{r:?}"), "expected": want}),
+                );
+                break;
+            }
+            if want {
+                last[who] = Some(v);
+            }
+        }
+    }
+    rep.count("change_of_pair_histories", n);
 }
 
 // ---- random chance ------------------------------------------------------------------------------------
@@ -529,13 +637,14 @@ fn logical(rep: &Reporter) {
 
 fn main() {
     let rep = Reporter::from_args("C10");
-    rep.rule("prepared states x conditions: LessThanN (custom u32/f64 lens, iterations, evaluations) for n in {1,2,3,7,10,1000} x values 0..n+2, boundary and random values incl. the Progress state written; EveryN for n in {1,2,3,7,10} x values 0..3n+2; real Loops with a counting body and a counting condition wrapper for n in 0..12, 50, 333 (passes, tests, iteration counter, progress sequence k/n); OptimumReached over epsilon x distance grid with/without a best individual; ChangeOf with PartialEqChecker and DeltaEqChecker(1..5) on u32 and SingleObjective targets over all value histories up to the stated length over {0,1,2,5} vs a last-reported model; RandomChance frequencies vs a Hoeffding band (delta=1e-10); all Boolean formulas up to depth 2 (sampled depth 3) over three counting operands x all 8 assignments, built with constructors and with the & | ! operators. distinct_nontrivial = distinct (condition, parameter, value/history/assignment) cells");
+    rep.rule("prepared states x conditions: LessThanN (custom u32/f64 lens, iterations, evaluations) for n in {1,2,3,7,10,1000} x values 0..n+2, boundary and random values incl. the Progress state written; EveryN for n in {1,2,3,7,10} x values 0..3n+2; real Loops with a counting body and a counting condition wrapper for n in 0..12, 50, 333 (passes, tests, iteration counter, progress sequence k/n); OptimumReached over epsilon x distance grid with/without a best individual; ChangeOf with PartialEqChecker and DeltaEqChecker(1..5) on u32 and SingleObjective targets over all histories up to the stated length over {0,1,2,5, initialise-again} vs a last-reported model (a fresh initialisation forgets what was reported), the condition living 0-2 scopes further in than the value it observes; pairs of ChangeOf conditions on different values of the same / of different Rust types in one state (each answers relative to its own last report); LessThanN / EveryN / OptimumReached also asked from inside 1-2 scopes opened over the state they observe; RandomChance frequencies vs a Hoeffding band (delta=1e-10); all Boolean formulas up to depth 2 (sampled depth 3) over three counting operands x all 8 assignments, built with constructors and with the & | ! operators. distinct_nontrivial = distinct (condition, parameter, value/history/assignment) cells");
     rep.assume("RandomChance band: |freq - p| <= sqrt(ln(2/1e-10)/(2N)); exact for p in {0,1}");
     less_than_n(&rep);
     loops(&rep);
     nested_loops(&rep);
     optimum(&rep);
     change_of(&rep);
+    change_of_pairs(&rep);
     random_chance(&rep);
     logical(&rep);
     let _ = Populations::<P>::new;
